@@ -88,7 +88,7 @@ func newVC(prog *Program, fi *FuncInfo) *VC {
 	vc := &VC{prog: prog, fi: fi, pkg: fi.Pkg, info: fi.Pkg.TypesInfo, con: prog.Contracts[full], unit: short,
 		occ: map[string]int{}, nodeOcc: map[ast.Node]map[string]int{}, abstr: map[string]int{}, heapSorts: map[string]string{},
 		rangeFacts: map[int]bool{}, globalsInit: map[string]bool{}, addrTaken: map[types.Object]bool{}, ghost: map[string]Val{},
-		assumedContracts: map[string]bool{}, origins: map[int]originRec{}}
+		assumedContracts: map[string]bool{}, origins: map[int]originRec{}, strKeys: map[int]*Term{}}
 	return vc
 }
 
